@@ -31,7 +31,8 @@ PROPS = {
              "before the controller's own last write, only directly after such a write; the store enforces resourceVersion conflicts - cloud faults, or the next assign executed but its answer lost - the cloud "
              "stub then replays that answer to the next assign with the same interface and count, as the real API does for a reused client token; "
              "usually followed by a full sync) / "
-             "agent restart / controller restart, on an IPv4, dual-stack or IPv6-only pool, plus bindings that pre-exist the history with or without a recorded UID and running pods that report "
+             "agent restart / controller restart, on an IPv4, dual-stack or IPv6-only pool, on an ECS or a LingJun (EFLO) node - there with a step that makes the cloud list an address bound to a pod in a "
+             "transitional status for 1-3 listings (the address stays assigned) -, plus bindings that pre-exist the history with or without a recorded UID and running pods that report "
              "addresses the record has not linked to them yet (take-over by the first reconcile); two thirds of the steps "
              "follow a pod's natural lifecycle, one third is arbitrary; non-trivial = some reconcile starts with a bound address whose pod object is "
              "gone while its teardown report is still pending, or a pool GC pass runs over >= 1 bound address. distinct = distinct scenario hash",
@@ -52,7 +53,8 @@ PROPS = {
             "only the pod to be gone, until the record itself learns the UID",
         ],
         level_text="generated records and generated histories of the two-process protocol run through the real controller and the real node agent "
-                   "against an oracle written from the statement; bounded liveness (pod gone and teardown in NodeRuntime => freed by the next fault-free reconcile; and, if a history ends with an "
+                   "against an oracle written from the statement; reclaims are also judged against the harness's ground truth of who was given a sandbox on the address (a later instance of the same pod name "
+                   "that the agent served from its predecessor's record); bounded liveness (pod gone and teardown in NodeRuntime => freed by the next fault-free reconcile; and, if a history ends with an "
                    "address bound to a vanished pod whose teardown the agent had reported at some point - even if the report is gone again - two fault-free "
                    "rounds of flush / 5-minute housekeeping / agent GC / flush / reconcile must free it) and the agent-side clause (every `deleted` that appears belongs to a pod whose DEL was processed and that has not been given a sandbox again since, or that a GC verified "
                    "gone) are checked on every step; exploration, not proof",
@@ -69,6 +71,7 @@ PROPS = {
                  timeout_thorough=3000),
             dict(unit="c03_daemon", test="TestVerifC03KnownWitnessReAdd", quick=1, thorough=1, shards=1),
             dict(unit="c03_daemon", test="TestVerifC03KnownWitnessStaleUnassign", quick=1, thorough=1, shards=1),
+            dict(unit="c03_daemon", test="TestVerifC03KnownWitnessStaleTransitional", quick=1, thorough=1, shards=1),
         ],
     ),
 }
